@@ -780,7 +780,7 @@ func c09W6(l *core.Ledger, r *rt) {
 			l.Check(bad == "", "C09-W6", key, c.Pos(), "set only on transport errors", "the stream is marked broken on an error that can be a caller's context error ("+bad+"): a call whose context ended before its request was written makes the sender tear down a healthy stream; the next request then requests the stream write lock while the reader is parked in RecvMsg on that healthy, idle stream - the node is disabled")
 		})
 	}
-	l.Floor("C09-W6", n, 4, "sites that mark the stream broken")
+	l.Floor("C09-W6", n, 2, "sites that mark the stream broken")
 }
 
 // c09W8: "broken" must describe the stream that is current when the flag is
